@@ -54,6 +54,8 @@ package service
 //@             [KCtx(requestContextID) := enc_RequestContext(rc[BatchCounter := wrap_u64(rc.BatchCounter + 1)][BatchState := BATCHRUNNING][BatchResponseCount := 0][BatchRequestCount := wrap_u32(len(F))][BatchResponseThreshold := rc.ResponseThreshold])]
 //@             [KExpQ(wrap_i64(ctxHeight(ctx) + rc.Timeout), requestContextID) := idVal(requestContextID)][KExpH(requestContextID) := hVal(wrap_i64(ctxHeight(ctx) + rc.Timeout))]
 //@             [KNewQ(ctxHeight(ctx), requestContextID) := bnil][KNewH(requestContextID) := bnil])
+//@ ensures [C05] only_the_consumer_of_an_issued_batch_is_debited: forall a Bytes, d Str :: {bal[a][d]} ordinary(a) && bal[a][d] < old(bal)[a][d] ==>
+//@      issuedNow(raw, requestContextID, a)
 
 // EndBlocker$1 = expiredRequestHandler(requestID, request): called for every still-pending request of an expired batch.
 //@ func EndBlocker$1
@@ -65,6 +67,7 @@ package service
 //@ requires called_with_the_stored_request: requestFound(raw, requestID) && request == requestOf(raw, requestID)
 //@ requires [C04] binding_of_request_exists: bindFound(raw, reqSvc(raw, requestID), reqProv(raw, requestID))
 //@ requires consumer_ordinary: ordinary(reqConsumer(raw, requestID))
+//@ requires [C02] still_pending: isActive(raw, requestID)
 //@ ensures [C02,C08,C16] no_longer_pending_in_either_index: raw[KActID(requestID)] == bnil && raw[KActB(request.ServiceName, request.Provider, request.ExpirationHeight, requestID)] == bnil
 //@ ensures [C04,C07] super_mode_neither_slashes_nor_refunds: request.SuperMode ==> bal == old(bal) && supply == old(supply) &&
 //@      raw == old(raw)[KActB(request.ServiceName, request.Provider, request.ExpirationHeight, requestID) := bnil][KActID(requestID) := bnil]
@@ -77,6 +80,7 @@ package service
 //@ ensures [C16,C15] touches_only_the_binding_and_the_two_markers: forall k Key :: {raw[k]}
 //@      (k != KBind(request.ServiceName, request.Provider) && k != KActID(requestID) && k != KActB(request.ServiceName, request.Provider, request.ExpirationHeight, requestID)) ==> raw[k] == old(raw)[k]
 //@ ensures [C12,C16] uncounts_exactly_this_marker: forall id Bytes :: {cntAct(raw, id)} cntAct(raw, id) == cntAct(old(raw), id) - ((id == ridCtx(requestID) && isActive(old(raw), requestID)) ? 1 : 0)
+//@ ensures [C05] no_ordinary_account_is_debited: forall a Bytes, d Str :: {bal[a][d]} ordinary(a) ==> bal[a][d] >= old(bal)[a][d]
 
 // EndBlocker$2 = expiredRequestBatchHandler(requestContextID, requestContext): called for every entry of the expiry queue at this height.
 //@ func EndBlocker$2
@@ -93,6 +97,7 @@ package service
 //@ loop IterateActiveRequests.0 invariant pos_in_range: 0 <= iterator_pos && iterator_pos <= itCount(iterator_snap, iterator_pfx)
 //@ loop IterateActiveRequests.0 invariant snapshot: iterator_snap == old(raw) && iterator_pfx == PActByCtx(requestContextID, batchCounter) && batchCounter == old(requestContext).BatchCounter && cblog == old(cblog)
 //@ loop IterateActiveRequests.0 invariant wf: WF(raw) && depInv(raw, bal)
+//@ loop IterateActiveRequests.0 invariant [C05] no_ordinary_account_debited_so_far: forall a Bytes, d Str :: {bal[a][d]} ordinary(a) ==> bal[a][d] >= old(bal)[a][d]
 //@ loop IterateActiveRequests.0 invariant [C12] counts_of_other_contexts_kept: forall id Bytes :: {raw[KCtx(id)]} {cntAct(raw, id)} id != requestContextID ==> batchOK(raw, id)
 //@ loop IterateActiveRequests.0 invariant records_untouched: forall k Key :: {raw[k]} (!is_KBind(k) && !is_KActB(k) && !is_KActID(k)) ==> raw[k] == iterator_snap[k]
 //@ loop IterateActiveRequests.0 invariant bindings_stay: forall s Str, p Bytes :: {raw[KBind(s, p)]} bindFound(iterator_snap, s, p) ==> bindFound(raw, s, p)
@@ -119,6 +124,7 @@ package service
 //@      ((is_KCtx(k) && k != KCtx(requestContextID)) || (is_KExpQ(k) && k != KExpQ(ctxHeight(ctx), requestContextID)) || (is_KExpH(k) && k != KExpH(requestContextID)) ||
 //@       (is_KNewQ(k) && knq_id(k) != requestContextID) || (is_KNewH(k) && k != KNewH(requestContextID))) ==> raw[k] == old(raw)[k]
 //@ ensures [C12] callback_once_if_the_batch_was_still_open: (let rc := requestContext in requestContext.BatchState == BATCHCOMPLETED || len(rc.ModuleName) == 0 ==> cblog == old(cblog))
+//@ ensures [C05] no_ordinary_account_is_debited: forall a Bytes, d Str :: {bal[a][d]} ordinary(a) ==> bal[a][d] >= old(bal)[a][d]
 
 // ---------------------------------------------------------------- message handlers (C05: authority; a message debits only its signer)
 //@ func handleMsgDefineService
@@ -352,6 +358,8 @@ package service
 //@ preserves [C11] queues_are_well_formed: schedInv(raw)
 //@ requires [C11] no_event_in_the_past: futInv(raw, ctxHeight(ctx))
 //@ ensures [C11,C10] every_event_due_in_this_block_is_processed_and_none_lies_in_the_past: futInv(raw, ctxHeight(ctx) + 1)
+//@ ensures [C05] only_consumers_whose_running_context_issued_a_batch_are_debited: forall a Bytes, d Str :: {bal[a][d]} ordinary(a) && bal[a][d] < old(bal)[a][d] ==>
+//@      (exists id Bytes :: issuedNow(raw, id, a))
 //@ ensures [C11,C10] every_expiry_due_in_this_block_is_processed: forall id Bytes :: {raw[KExpQ(ctxHeight(ctx), id)]} raw[KExpQ(ctxHeight(ctx), id)] == bnil
 //@ loop IterateExpiredRequestBatch.0 invariant pos_in_range: 0 <= iterator_pos && iterator_pos <= itCount(iterator_snap, iterator_pfx)
 //@ loop IterateExpiredRequestBatch.0 invariant snapshot: iterator_snap == old(raw) && iterator_pfx == PExpQ(ctxHeight(ctx)) && expirationHeight == ctxHeight(ctx)
@@ -365,6 +373,8 @@ package service
 //@ loop IterateNewRequestBatch.0 invariant [C11] no_event_in_the_past: futInv(raw, ctxHeight(ctx)) && cadInv(raw, ghostMaxTot)
 //@ loop IterateNewRequestBatch.0 invariant [C11] visited_entries_consumed: forall id Bytes :: {raw[KNewQ(ctxHeight(ctx), id)]}
 //@      (iterator_snap[KNewQ(ctxHeight(ctx), id)] == bnil || itIdx(iterator_snap, iterator_pfx, KNewQ(ctxHeight(ctx), id)) < iterator_pos) ==> raw[KNewQ(ctxHeight(ctx), id)] == bnil
+//@ loop IterateNewRequestBatch.0 invariant [C05] debited_so_far_issued_a_batch: forall a Bytes, d Str :: {bal[a][d]} ordinary(a) && bal[a][d] < old(bal)[a][d] ==>
+//@      (exists id Bytes :: issuedNow(raw, id, a))
 //@ loop IterateNewRequestBatch.0 invariant unvisited_entries_untouched: forall id Bytes :: {raw[KNewQ(ctxHeight(ctx), id)]}
 //@      (iterator_snap[KNewQ(ctxHeight(ctx), id)] != bnil && itIdx(iterator_snap, iterator_pfx, KNewQ(ctxHeight(ctx), id)) >= iterator_pos) ==>
 //@      raw[KNewQ(ctxHeight(ctx), id)] == iterator_snap[KNewQ(ctxHeight(ctx), id)]
@@ -373,6 +383,7 @@ package service
 //@ loop IterateNewRequestBatch.0 invariant unvisited_contexts_untouched: forall id Bytes :: {raw[KCtx(id)]}
 //@      (iterator_snap[KNewQ(ctxHeight(ctx), id)] != bnil && itIdx(iterator_snap, iterator_pfx, KNewQ(ctxHeight(ctx), id)) >= iterator_pos) ==>
 //@      raw[KCtx(id)] == iterator_snap[KCtx(id)]
+//@ loop IterateExpiredRequestBatch.0 invariant [C05] no_ordinary_account_debited_so_far: forall a Bytes, d Str :: {bal[a][d]} ordinary(a) ==> bal[a][d] >= old(bal)[a][d]
 //@ loop IterateExpiredRequestBatch.0 invariant queues_ok: schedInv(raw) && cntInv(raw) && futInv(raw, ctxHeight(ctx)) && cadInv(raw, ghostMaxTot)
 //@ loop IterateExpiredRequestBatch.0 invariant unvisited_contexts_untouched: forall id Bytes :: {raw[KCtx(id)]} {raw[KExpH(id)]} {raw[KNewH(id)]}
 //@      (iterator_snap[KExpQ(ctxHeight(ctx), id)] != bnil && itIdx(iterator_snap, iterator_pfx, KExpQ(ctxHeight(ctx), id)) >= iterator_pos) ==>
